@@ -16,4 +16,123 @@ MUTANTS = [
      "edits": [("src/pdu_loop/frame_element/received_frame.rs", "            Some(expected) => self.wkc(expected),", "            Some(_expected) => Ok(self),")]},
     {"id": "c11-neutral-rename", "property": "C11", "neutral": True,
      "edits": [("src/pdu_loop/frame_element/received_frame.rs", "        if self.working_counter == expected {\n            Ok(self)", "        let got = self.working_counter;\n        if expected == got {\n            Ok(self)")]},
+    # ---------------- C02 / SLOTFSM ----------------
+    {"id": "c02-swap-state-store", "property": "C02", "expect": "C02.S1",
+     "edits": [("src/pdu_loop/frame_element/mod.rs", """            (*addr_of_mut!((*fptr).status)).compare_exchange(
+                from,
+                to,
+                Ordering::AcqRel,
+                Ordering::Relaxed,
+            )
+        }?;""", """            let _ = from;
+            (*addr_of_mut!((*fptr).status)).store(to, Ordering::Release)
+        };""")]},
+    {"id": "c02-claim-sending-store", "property": "C02", "expect": "C02.S1",
+     "edits": [("src/pdu_loop/frame_element/mod.rs", "        unsafe { Self::swap_state(this, FrameState::Sendable, FrameState::Sending) }.ok()", "        unsafe { Self::set_state(this, FrameState::Sending) };\n        Some(this)")]},
+    {"id": "c02-relaxed-claim", "property": "C02", "expect": "C02.S1|swap_state:success-ordering",
+     "edits": [("src/pdu_loop/frame_element/mod.rs", "                Ordering::AcqRel,\n                Ordering::Relaxed,", "                Ordering::Relaxed,\n                Ordering::Relaxed,")]},
+    {"id": "c02-mark-before-copy", "property": "C02", "expect": "C02.S4|receive_frame", "also": ["C01"],
+     "edits": [("src/pdu_loop/pdu_rx.rs", "        let frame_data = frame.buf_mut();", "        frame.mark_received()?;\n\n        let frame_data = frame.buf_mut();"),
+               ("src/pdu_loop/pdu_rx.rs", "            .copy_from_slice(i);\n\n        frame.mark_received()?;", "            .copy_from_slice(i);")]},
+    {"id": "c02-wake-before-cas", "property": "C02", "expect": "C02.S4|mark_received", "also": ["C01"],
+     "edits": [("src/pdu_loop/frame_element/receiving_frame.rs", "        self.inner\n            .swap_state(FrameState::RxBusy, FrameState::RxDone)", "        let _ = self.inner.wake();\n\n        self.inner\n            .swap_state(FrameState::RxBusy, FrameState::RxDone)"),
+               ("src/pdu_loop/frame_element/receiving_frame.rs", "        let _ = self.inner.wake();\n\n        Ok(())", "        Ok(())")]},
+    {"id": "c02-waker-after-test", "property": "C02", "expect": "C02.S4|poll:waker-before-test", "also": ["C01"],
+     "edits": [("src/pdu_loop/frame_element/receiving_frame.rs", "        rxin.replace_waker(cx.waker());\n\n", ""),
+               ("src/pdu_loop/frame_element/receiving_frame.rs", "            Err(e) => e,\n        };\n", "            Err(e) => e,\n        };\n\n        rxin.replace_waker(cx.waker());\n")]},
+    {"id": "c02-handle-without-claim", "property": "C02", "expect": "C02.S2",
+     "edits": [("src/pdu_loop/frame_element/sendable_frame.rs", "        let frame = unsafe { FrameElement::claim_sending(frame)? };", "        let frame = unsafe { FrameElement::claim_sending(frame).unwrap_or(frame) };")]},
+    {"id": "c02-rx-reads-created", "property": "C02", "expect": "C02.S3",
+     "edits": [("src/pdu_loop/frame_element/receiving_frame.rs", "    fn storage_slot_index(&self) -> u8 {\n        self.inner.storage_slot_index()\n    }\n}\n\npub struct ReceiveFrameFut", "    fn storage_slot_index(&self) -> u8 {\n        let _ = self.inner.ethernet_frame();\n        self.inner.storage_slot_index()\n    }\n}\n\npub struct ReceiveFrameFut")]},
+    {"id": "c02-clear-after-release", "property": "C02", "expect": "C02.S5", "also": ["C01"],
+     "edits": [("src/pdu_loop/frame_element/received_frame.rs", "        self.inner.clear_first_pdu();\n\n        // Invariant", "        // Invariant"),
+               ("src/pdu_loop/frame_element/received_frame.rs", "                .swap_state(FrameState::RxProcessing, FrameState::None)\n        );\n", "                .swap_state(FrameState::RxProcessing, FrameState::None)\n        );\n        self.inner.clear_first_pdu();\n")]},
+    # ---------------- C03 ----------------
+    {"id": "c03-no-drop-future", "property": "C03", "expect": "C03.S6|impl-Drop:ReceiveFrameFut",
+     "edits": [("src/pdu_loop/frame_element/receiving_frame.rs", "impl Drop for ReceiveFrameFut<'_> {\n    fn drop(&mut self) {", "impl ReceiveFrameFut<'_> {\n    #[allow(unused)]\n    fn not_drop(&mut self) {")]},
+    {"id": "c03-no-release-on-last-timeout", "property": "C03", "expect": "C03.S6|poll", "also": ["C06"],
+     "edits": [("src/pdu_loop/frame_element/receiving_frame.rs", "                    Self::release(rxin);\n\n                    return", "                    return")]},
+    {"id": "c03-forget-putback", "property": "C03", "expect": "C03.S6|poll:claim-resolved",
+     "edits": [("src/pdu_loop/frame_element/receiving_frame.rs", "                self.frame = Some(rxin);\n\n                Poll::Pending", "                Poll::Pending")]},
+    {"id": "c03-send-error-keeps-claim", "property": "C03", "expect": "C03.S6|send_blocking",
+     "edits": [("src/pdu_loop/frame_element/sendable_frame.rs", "            Err(res) => {\n                self.release_sending_claim();\n", "            Err(res) => {\n")]},
+    {"id": "c03-created-drop-noop", "property": "C03", "expect": "C03.S6|CreatedFrame::drop",
+     "edits": [("src/pdu_loop/frame_element/created_frame.rs", "        let _ = self.inner.swap_state(FrameState::Created, FrameState::None);", "        let _ = self.inner.swap_state(FrameState::Created, FrameState::Created);")]},
+    {"id": "c03-alloc-one-round", "property": "C03", "expect": "C03.alloc|alloc:2N-attempts",
+     "edits": [("src/pdu_loop/storage.rs", "for _ in 0..(self.num_frames * 2) {", "for _ in 0..(self.num_frames / 2) {")]},
+    {"id": "c03-reset-skips-last", "property": "C03", "expect": "C03.S6|reset",
+     "edits": [("src/pdu_loop/storage.rs", "        for i in 0..self.num_frames {\n            let frame = self.frame_at_index(i);", "        for i in 0..(self.num_frames - 1) {\n            let frame = self.frame_at_index(i);")]},
+    # ---------------- C06 ----------------
+    {"id": "c06-timer-before-done", "property": "C06", "expect": "C06.poll|done-test-before-timer",
+     "edits": [("src/pdu_loop/frame_element/receiving_frame.rs", "        rxin.replace_waker(cx.waker());\n", "        rxin.replace_waker(cx.waker());\n        let early = self.timeout_timer.poll(cx).is_ready();\n        if early && self.retries_left == 0 {\n            Self::release(rxin);\n            return Poll::Ready(Err(Error::Timeout(TimeoutError::from_timeout_kind(self.timeout.kind))));\n        }\n")]},
+    {"id": "c06-retry-double-decrement", "property": "C06", "expect": "C06.poll|retry-bookkeeping",
+     "edits": [("src/pdu_loop/frame_element/receiving_frame.rs", "                self.retries_left -= 1;", "                self.retries_left = self.retries_left.saturating_sub(2);")]},
+    {"id": "c06-forever-is-zero", "property": "C06", "expect": "C06.retry_count",
+     "edits": [("src/maindevice_config.rs", "RetryBehaviour::Forever => usize::MAX,", "RetryBehaviour::Forever => 0,")]},
+    {"id": "c06-retry-without-wake", "property": "C06", "expect": "C06.poll|retry-bookkeeping",
+     "edits": [("src/pdu_loop/frame_element/receiving_frame.rs", "                self.pdu_loop.wake_sender();\n\n                self.retries_left -= 1;", "                self.retries_left -= 1;")]},
+    {"id": "c06-new-store-on-timeout", "property": "C06", "expect": "C06.S7",
+     "edits": [("src/pdu_loop/frame_element/receiving_frame.rs", "    fn storage_slot_index(&self) -> u8 {\n        self.inner.storage_slot_index()\n    }\n}\n\npub struct ReceiveFrameFut", "    fn storage_slot_index(&self) -> u8 {\n        self.inner.set_state(FrameState::RxDone);\n        self.inner.storage_slot_index()\n    }\n}\n\npub struct ReceiveFrameFut")]},
+    # ---------------- C01 ----------------
+    {"id": "c01-no-index-compare", "property": "C01", "expect": "C01.handle|ReceivedFrame::first_pdu:index",
+     "edits": [("src/pdu_loop/frame_element/received_frame.rs", """        if pdu_header.index != handle.pdu_idx {
+            return Err(Error::Pdu(PduError::InvalidIndex(pdu_header.index)));
+        }
+
+        let payload_ptr = unsafe {
+            NonNull::new_unchecked(
+                buf.get(PduHeader::PACKED_LEN..)
+                    .ok_or(Error::Internal)?
+                    .as_ptr()
+                    .cast_mut(),
+            )
+        };
+
+        let working_counter = u16::unpack_from_slice(
+            buf.get((PduHeader::PACKED_LEN + payload_len)..)
+                .ok_or(Error::Internal)?,
+        )?;
+
+        Ok(ReceivedPdu {
+            data_start: payload_ptr,
+            len: payload_len,
+            working_counter,
+            // Frame""", """        let payload_ptr = unsafe {
+            NonNull::new_unchecked(
+                buf.get(PduHeader::PACKED_LEN..)
+                    .ok_or(Error::Internal)?
+                    .as_ptr()
+                    .cast_mut(),
+            )
+        };
+
+        let working_counter = u16::unpack_from_slice(
+            buf.get((PduHeader::PACKED_LEN + payload_len)..)
+                .ok_or(Error::Internal)?,
+        )?;
+
+        Ok(ReceivedPdu {
+            data_start: payload_ptr,
+            len: payload_len,
+            working_counter,
+            // Frame""")]},
+    {"id": "c01-sentinel-00ff", "property": "C01", "expect": "C01.key|sentinel",
+     "edits": [("src/pdu_loop/frame_element/mod.rs", "pub const FIRST_PDU_EMPTY: u16 = 0xff00;", "pub const FIRST_PDU_EMPTY: u16 = 0x00ff;")]},
+    {"id": "c01-trim-no-shrink", "property": "C01", "expect": "C01.view|ReceivedPdu::trim_front",
+     "edits": [("src/pdu_loop/frame_element/received_frame.rs", "        self.len -= ct;\n", "")]},
+    {"id": "c01-lookup-ignores-state", "property": "C01", "expect": "C01.S8",
+     "edits": [("src/pdu_loop/storage.rs", "                    && FrameElement::<0>::is_awaiting_response(frame)\n", "")]},
+    {"id": "c01-view-drops-frame", "property": "C01", "expect": "C01.S5e",
+     "edits": [("src/pdu_loop/frame_element/received_frame.rs", "            _frame: Some(self),", "            _frame: None,")]},
+    {"id": "c01-len-plus-two", "property": "C01", "expect": "C01.view|ReceivedFrame::first_pdu:len",
+     "edits": [("src/pdu_loop/frame_element/received_frame.rs", "            _frame: Some(self),", "            _frame: Some(self),"), ("src/pdu_loop/frame_element/received_frame.rs", "            len: payload_len,\n            working_counter,\n            // Frame", "            len: payload_len + 2,\n            working_counter,\n            // Frame")]},
+    {"id": "c01-marker-overwrite", "property": "C01", "expect": "C01.key|set_first_pdu",
+     "edits": [("src/pdu_loop/frame_element/mod.rs", """        let _ = first_pdu.compare_exchange(
+            FIRST_PDU_EMPTY,
+            u16::from(value),
+            Ordering::Release,
+            Ordering::Relaxed,
+        );""", """        first_pdu.store(u16::from(value), Ordering::Release);""")]},
+    {"id": "c01-neutral-log", "property": "C01", "neutral": True, "also": ["C02", "C03", "C06"],
+     "edits": [("src/pdu_loop/frame_element/received_frame.rs", "        let payload_len = usize::from(pdu_header.flags.len());\n\n        // If buffer isn't long enough to hold payload and WKC, this is probably a corrupt PDU or\n        // someone is committing epic haxx.\n        if buf.len() < payload_len + 2 {\n            return Err(Error::Pdu(PduError::TooLong));\n        }\n\n        if pdu_header.command_code != handle.command_code {", "        let payload_len = usize::from(pdu_header.flags.len());\n        fmt::trace!(\"payload {}\", payload_len);\n\n        if buf.len() < payload_len + 2 {\n            return Err(Error::Pdu(PduError::TooLong));\n        }\n\n        if handle.command_code != pdu_header.command_code {")]},
 ]
